@@ -532,7 +532,6 @@ def stepGrp (sel wh impl bounds metaTok phys : String) (colToks : List String) :
         else if modelAgrees ∧ run.parts.length ≥ 2 ∧ run.parts.any (fun p => !keysAscending run.univ p) then "groupby-null-key-order"
         else if nullKeyOrderTrigger c && regroupMatches c impl then "groupby-null-key-order"
         else if sumHitsSentinel c ∧ (modelAgrees ∨ (model = "?" ∧ (sumPatchedRows c).any (sameMultiset impl))) then "sum-sentinel"
-        else if c.sig = "pinned" ∧ (impl = "err:canceled" ∨ impl = "hang" ∨ impl = "panic") then "executor-pinned-buffer"
         else if c.sig = "emptyvec" ∧ (impl = "err:canceled" ∨ impl = "hang" ∨ impl = "panic") then "executor-empty-vector"
         else if countNullGroup c ∧ (modelAgrees ∨ (countPatchedRows c).any (sameMultiset impl)) then "count-null-group"
         else ""
